@@ -20,6 +20,7 @@ def check(ctx, run):
     rendering.r03_1_2(ctx, run)
     rendering.r03_3(ctx, run)
     rendering.r03_4(ctx, run)
+    rendering.r03_8(ctx, run)
     only = lambda p: p in ('functions::container_to_string', 'functions::scalar_to_string')
     walkers.w_init(ctx, run, 'R03.5/R05.1', only=only, floor=2)
     walkers.w_advance(ctx, run, 'R03.5/R05.2', only=only, floor=1)
